@@ -4,6 +4,7 @@ pub mod c06;
 pub mod c07;
 pub mod c11;
 pub mod c18;
+pub mod nsd;
 pub mod selftest;
 
 /// Run the check `id` if it lives in this crate (never returns then).
